@@ -14,6 +14,17 @@ def main(path):
     if fam == "world":
         import checks_world
         import world
+        if r["ops"] and r["ops"][0].get("k") == "repo-test-trace":
+            rb, passed = world.repo_test_traces({pid})
+            fails, st = tlc.validate_traces(rb)
+            mine = [(t, l, c) for (t, l, c) in fails if pid in checks_world.clause_tags(c) or (pid == "C05" and c[0] == "ans")]
+            for t, l, c in mine[:20]:
+                print(f"  repository-test trace {t}, event {l}: clause {'/'.join(c)}: {json.dumps(rb['traces'][t - 1]['events'][l - 1]['op'])[:200]}")
+            if mine:
+                print(f"VIOLATION property={pid} replay={path}")
+                return 1
+            print("the violation does not reproduce on the current tree")
+            return 0
         res = world.run_ops((r["ops"], r["seed"], r["opts"]))
         batch = world.merge_batches([res], {pid})
         fails, st = tlc.validate_traces(batch)
